@@ -452,5 +452,112 @@ def lines (cfg : Cfg) (rep : Bool) : Nat → List (List Char) → List (Res Pos)
 def specAll (cfg : Cfg) (rep : Bool) (src : List Char) : List (Res Pos) :=
   lines cfg rep 1 (splitLines src)
 
+/-! ### S with a configuration that changes between calls (`specSched`)
+
+TeX samples the configuration just in time: `cat_code(c)` when `get_next` looks at the character
+`c` (§343 `reswitch`, §354–§356 for every character of a name and the character that ends it —
+which is only looked at, not consumed, and is categorised again by the call that consumes it),
+and `end_line_char` when a line is brought into the buffer (§360). Commands are executed
+between calls of `get_next`, so the configuration is constant during one call and a function of
+what has been delivered so far: `sched : List (Res Pos) → Cfg` maps the history of delivered
+items to the configuration of the next call. -/
+
+/-- §343–§353 up to the first item: the item, and state / rest of the buffer / column where the
+next call resumes; `none` when the buffer is used up (or dropped) without an item. -/
+def scan1 (cfg : Cfg) : Nat → St → List Char → Nat → Option (Res Nat × St × List Char × Nat)
+  | 0, st, _, col => some (.fuel, st, [], col)
+  | f + 1, st, l, col =>
+    match l with
+    | [] => none
+    | c :: t =>
+      match cfg.cat c with
+      | .escape =>
+        match csName cfg (t.length + 1) t (col + 1) with
+        | some (name, st', t', col') => some (.token (.cs name) col, st', t', col')
+        | none => some (.fuel, st, [], col)
+      | .endOfLine =>
+        match st with
+        | .newLine => some (.token (.cs parName) col, .newLine, [], col + 1 + t.length)
+        | .midLine => some (.token (.chr ' ' .space) col, .newLine, [], col + 1 + t.length)
+        | .skipBlanks => none
+      | .space =>
+        match st with
+        | .midLine => some (.token (.chr ' ' .space) col, .skipBlanks, t, col + 1)
+        | _ => scan1 cfg f st t (col + 1)
+      | .superscript =>
+        match expanded c t with
+        | some (c', t', n) => scan1 cfg f st (c' :: t') (col + n)
+        | none => some (.token (.chr c .superscript) col, .midLine, t, col + 1)
+      | .comment => none
+      | .ignored => scan1 cfg f st t (col + 1)
+      | .invalid => some (.invalid c col, st, t, col + 1)
+      | .active => some (.token (.active c) col, .midLine, t, col + 1)
+      | cc => some (.token (.chr c cc) col, .midLine, t, col + 1)
+
+/-- Where the scanner is between two calls: in line number `n` (0 = no line brought in yet) with
+text `text`, state `st`, the unread part `buf` of its buffer starting at column `col`; `rest`
+are the lines not yet brought in. -/
+structure SState where
+  n : Nat
+  text : List Char
+  st : St
+  buf : List Char
+  col : Nat
+  rest : List (List Char)
+  deriving Repr
+
+/-- One call of `get_next` under the configuration `cfg`: the delivered item and the new state.
+Lines are brought in (with `cfg`'s end-line character) until one yields an item. -/
+def step (cfg : Cfg) (rep : Bool) :
+    List (List Char) → Nat → List Char → St → List Char → Nat → Res Pos × SState
+  | rest, n, text, st, buf, col =>
+    match scan1 cfg (buf.length + 1) st buf col with
+    | some (item, st', buf', col') =>
+      (item.map (fun c => ⟨n, c, text⟩), ⟨n, text, st', buf', col', rest⟩)
+    | none =>
+      match rest with
+      | [] => (.endOfInput, ⟨n, text, st, [], col, []⟩)
+      | l :: ls =>
+        if rep ∧ 0 < n then (.endOfLine, ⟨n + 1, l, .newLine, buffer cfg l, 0, ls⟩)
+        else step cfg rep ls (n + 1) l .newLine (buffer cfg l) 0
+
+def SState.step (cfg : Cfg) (rep : Bool) (s : SState) : Res Pos × SState :=
+  Spec.step cfg rep s.rest s.n s.text s.st s.buf s.col
+
+/-- Call after call, each under the configuration the history determines. -/
+def runSched (sched : List (Res Pos) → Cfg) (rep : Bool) : Nat → List (Res Pos) → SState → List (Res Pos)
+  | 0, _, _ => [.fuel]
+  | f + 1, hist, s =>
+    match s.step (sched hist) rep with
+    | (.endOfInput, _) => [.endOfInput]
+    | (.panic, _) => [.panic]
+    | (.fuel, _) => [.fuel]
+    | (item, s') => item :: runSched sched rep f (hist ++ [item]) s'
+
+def SState.init (src : List Char) : SState := ⟨0, [], .newLine, [], 0, splitLines src⟩
+
+/-- The specification for a configuration that is a function of what has been delivered. -/
+def specSched (sched : List (Res Pos) → Cfg) (rep : Bool) (src : List Char) : List (Res Pos) :=
+  runSched sched rep (3 * src.length + 3) [] (SState.init src)
+
 end Spec
+
+/-! ## M with a configuration that changes between calls -/
+
+/-- Call `Lexer::next` until the end of the input, each call with the configuration that the
+history of (traced) results determines — what a VM does: it executes what it was given before
+it asks for the next token. -/
+def lexAllFSched (sched : List (Res Pos) → Cfg) (rep : Bool) (src : List Char) :
+    Nat → List (Res Pos) → Lexer → List (Res Pos)
+  | 0, _, _ => [.fuel]
+  | f + 1, hist, L =>
+    match L.next (sched hist) rep with
+    | (.endOfInput, _) => [.endOfInput]
+    | (.panic, _) => [.panic]
+    | (.fuel, _) => [.fuel]
+    | (r, L') => r.map (trace src) :: lexAllFSched sched rep src f (hist ++ [r.map (trace src)]) L'
+
+def lexTracedSched (sched : List (Res Pos) → Cfg) (rep : Bool) (src : List Char) : List (Res Pos) :=
+  lexAllFSched sched rep src (3 * src.length + 3) [] (Lexer.init src)
+
 end C03
